@@ -123,3 +123,16 @@ Proof.
   exists els. split; [unfold tokenize; apply toks_stmt; exact H1|]. split; [exact Hp|].
   rewrite Hd. apply stmt_lay_denote. exact H2.
 Qed.
+
+(* ---------------------------------------------------------------- composed with the merge theorem *)
+From Emmet Require Import model.MarkupResolve proofs.AttrProofs.
+
+(* the attribute list of the element after merge_attributes: the specification [merge_spec] applied to
+   the written mentions *)
+Theorem element_merged_text (rev_attrs : bool) (e : selem) :
+  merge_attributes rev_attrs (an_attrs (elem_node e)) =
+    match written_mentions e with [] => None | m => Some (merge_spec rev_attrs [] m) end.
+Proof.
+  unfold elem_node. cbn [an_attrs]. rewrite merge_attributes_spec. unfold attrs_opt.
+  destruct (written_mentions e); reflexivity.
+Qed.
